@@ -28,6 +28,7 @@ import (
 
 func treeSnapshot(n *parser.ASTNode) string {
 	var b strings.Builder
+	seenPtr := map[uintptr]bool{}
 	var val func(rv reflect.Value, depth int)
 	val = func(rv reflect.Value, depth int) {
 		if depth > 12 {
@@ -47,8 +48,19 @@ func treeSnapshot(n *parser.ASTNode) string {
 			}
 			t := rv.Type().String()
 			// components of the tree are rendered by the tree walk; shared
-			// infrastructure (provider, processor, loggers) is outside the tree
-			if depth == 0 || strings.HasSuffix(t, "baseRuntime") || strings.HasSuffix(t, "operatorRuntime") || strings.HasSuffix(t, "inOpRuntime") {
+			// infrastructure (provider, processor, loggers) is outside the tree.
+			// Everything else a runtime component points to that is declared in
+			// the interpreter or util package (a preallocated signal or error
+			// object, an embedded helper runtime) belongs to the component.
+			pkg := rv.Type().Elem().PkgPath()
+			own := (strings.HasSuffix(pkg, "ecal/interpreter") || strings.HasSuffix(pkg, "ecal/util")) &&
+				!strings.Contains(t, "ECALRuntimeProvider") && !strings.Contains(t, "Logger") && !strings.Contains(t, "ecalDebugger")
+			if depth == 0 || own {
+				if seenPtr[rv.Pointer()] {
+					fmt.Fprintf(&b, "%s@seen;", t)
+					return
+				}
+				seenPtr[rv.Pointer()] = true
 				val(rv.Elem(), depth+1)
 				return
 			}
